@@ -109,6 +109,8 @@ def to_json(schema, h, ty, v):
         return [to_json(schema, h, inner, x) for x in v.elems]
     name = last_seg(ty)
     if is_quantity(ty) or name in NUM_TYPES:
+        if isinstance(v, Opaque) and v.tag == "NaN":
+            return float("nan")
         return float(v)
     if name in INT_TYPES:
         return int(v)
@@ -120,7 +122,7 @@ def to_json(schema, h, ty, v):
         return to_json(schema, h, "u32", v.fields[0])
     if schema.lookup(ty) is not None:
         if not schema.lookup(ty):
-            return None
+            return None if name in schema.unit_structs else {}
         out = {}
         for f, fv in zip(schema.lookup(ty), v.fields):
             if f.skip or fv is UNINIT:
